@@ -424,6 +424,8 @@ def run_stream(ctx, impl, drv, trees, nstates, dev, stats, maxfd, max_report=6):
                 continue
             left, right = o.split(" ->", 1)
             recs.append((left.strip(), right.strip(), i))
+        elif mt["kind"] == "model" and o.startswith("ok"):
+            G.check_joint_order(trees[owner[i]], o)
         elif mt["kind"] == "model" and not o.startswith("ok"):
             report(i, [("c07:engine-error", "model failed to compile: " + o[:200])])
     if drv and recs:
